@@ -177,6 +177,13 @@ func stream(c *Case, rng *rand.Rand) (frames [][]byte, err error) {
 		}
 		q := libx.LegalReq(rng, uint8(fc), size)
 		q.TID = uint16(0x1100 + i*0x101 + rng.Intn(200))
+		if i > 0 && rng.Intn(4) == 0 {
+			// the client chooses its transaction ids freely: here the two bytes that follow the previous frame happen to be
+			// the RTU checksum of that frame's unit id and PDU (low byte first) - they are still the next request's id
+			prev := frames[len(frames)-1]
+			w := specref.CRC(prev[6:])
+			q.TID = uint16(byte(w))<<8 | uint16(w>>8)
+		}
 		if (fc == 1 || fc == 2) && q.Qty > 125 {
 			q.Qty = uint16(1 + rng.Intn(125)) // the library's FC1/2 request parser refuses more (C09 known finding)
 		}
@@ -207,6 +214,11 @@ func busy(c *Case) bool { return c.Seed%5 == 2 && c.Kind != "all" && c.Kind != "
 
 func busyFor(fc uint8, tid uint16) bool { return fc == 17 || tid%4 == 1 }
 
+// sentinelFor: requests the busy handler refuses with ONE error value of the library's typed kind that it made once
+// (packet.NewErrorParseTCP takes no addressing) and returns every time. What the client gets for such a request is
+// whatever it would get for it as the only request of a connection.
+func sentinelFor(fc uint8, tid uint16) bool { return fc != 17 && tid%4 == 3 }
+
 var errBusy = errors.New("verif: device busy")
 
 func devHandler(c *Case, dev *simdev.Device) server.ModbusHandler {
@@ -214,10 +226,14 @@ func devHandler(c *Case, dev *simdev.Device) server.ModbusHandler {
 	if !busy(c) {
 		return h
 	}
+	sentinel := packet.NewErrorParseTCP(packet.ErrServerBusy, "verif: busy, try later")
 	return srvx.HandlerFunc(func(ctx context.Context, req packet.Request) (packet.Response, error) {
 		b := req.Bytes()
 		if busyFor(b[7], uint16(b[0])<<8|uint16(b[1])) {
 			return nil, errBusy
+		}
+		if sentinelFor(b[7], uint16(b[0])<<8|uint16(b[1])) {
+			return nil, sentinel
 		}
 		return h.Handle(ctx, req)
 	})
@@ -245,6 +261,13 @@ func refReplies(c *Case, frames [][]byte) [][]byte {
 			if q, err := specref.DecodeReq(specref.TCP, f); err == nil && q.Legal() && busyFor(q.FC, q.TID) {
 				// the handler refused it with a plain error: the library's catch-all exception, addressed to the request
 				rep = []byte{f[0], f[1], 0, 0, 0, 3, f[6], f[7] | 0x80, packet.ErrUnknown}
+			} else if err == nil && q.Legal() && sentinelFor(q.FC, q.TID) {
+				// reference: this request alone on a fresh assembler with a fresh handler
+				alone, _, _ := srvx.Feed(devHandler(c, simdev.New(devSeed(c), "srv")), [][]byte{f})
+				rep = nil
+				for _, o := range alone {
+					rep = append(rep, o...)
+				}
 			}
 		}
 		out = append(out, rep)
